@@ -22,7 +22,7 @@ TIERS = {
     "quick": {"runs": 700, "max_wall": 240, "minimise_s": 25, "chunk": 20},
     "thorough": {"runs": 30000, "max_wall": 3000, "minimise_s": 60, "chunk": 50},
 }
-FAULT_KINDS = ["request dropped", "response dropped", "duplicated frame", "delayed frame (reordering across nodes)", "corrupt HEX file", "sparse HEX file (address gap = 0xFF), non-zero base address"]
+FAULT_KINDS = ["stray block request for firmware that is not loaded in the middle of a download", "request dropped", "response dropped", "duplicated frame", "delayed frame (reordering across nodes)", "corrupt HEX file", "sparse HEX file (address gap = 0xFF), non-zero base address"]
 REAL = ["mysensors.ota (prepare_fw, respond_fw, respond_fw_config, load_fw, make_update)", "mysensors.task.update_fw (sync + asyncio executor)",
         "crcmod, intelhex", "pump / reader / handlers"]
 STUBS = ["radio link and bootloader nodes (simulated peers)", "serial port / socket / asyncio transports", "disk (SimFS)", "clock"]
@@ -92,6 +92,8 @@ def gen(rng, tier, index):
         extra_cfg["late_at"] = rng.choice([0.05, 0.4, 1.0, 2.5])
     if rng.random() < 0.3:
         extra_cfg["unknown_in_list"] = rng.choice([0.0, 0.0, 0.5, 0.99])
+    if rng.random() < 0.3:
+        extra_cfg["split_call"] = True
     if flavour in ("aserial", "atcp") and len(images) >= 2 and rng.random() < 0.5:
         extra_cfg["concurrent_updates"] = True
         for i, img in enumerate(images[:2]):
@@ -101,7 +103,15 @@ def gen(rng, tier, index):
     for nid in nodes:
         sessions.append({"node": nid, "image": rng.randrange(len(images)), "order": rng.choice(["desc", "desc", "asc", "random"]),
                          "repeat": rng.choice([0.0, 0.0, 0.1, 0.3]), "timeout": rng.choice([0.2, 0.5, 1.0]), "start": rng.choice([0.0, 0.01, 0.3]),
-                         "sleepy": rng.random() < 0.3})
+                         "sleepy": rng.random() < 0.3, "stray": None})
+    keys_used = {(img["type"], img["ver"]) for img in images}
+    for sess in sessions:
+        if rng.random() < 0.25:
+            stray = next(k for k in [(4242, 17), (4243, 18), (1, 1), (7, 7)] if k not in keys_used)
+            sess["stray"] = list(stray)
+    if extra_cfg.get("split_call") and rng.random() < 0.7:
+        for sess in sessions:
+            sess["image"] = sessions[0]["image"]
     rates = rng.choice([{"drop": 0.0, "dup": 0.0, "delay": 0.0}, {"drop": 0.03, "dup": 0.03, "delay": 0.1}, {"drop": 0.1, "dup": 0.1, "delay": 0.3},
                         {"drop": 0.0, "dup": 0.2, "delay": 0.5}])
     cfg = {"flavour": flavour, "version": rng.choice(["1.4", "2.0", "2.2"]), "images": images, "rates": rates,
@@ -181,6 +191,7 @@ class Bootloader:
         self.finished_at = None
         self.rng = random.Random(spec["node"] * 7919 + 13)
         self.config_requests = 0
+        self.strayed = False
         link.peers[self.node] = self
 
     def start(self):
@@ -205,6 +216,12 @@ class Bootloader:
             return
         self.pending = self.queue[0]
         ftype, fver = self.key
+        stray = self.spec.get("stray")
+        if stray and self.blocks and not self.strayed:
+            # once, in the middle of the download: a request naming firmware the controller does not have (the sketch the
+            # node is running now) - not answered, and the download goes on
+            self.strayed = True
+            self.link.to_gateway(f"{self.node};255;4;0;2;{le16(stray[0], stray[1], self.pending)}")
         self.link.to_gateway(f"{self.node};255;4;0;2;{le16(ftype, fver, self.pending)}")
         self._arm()
 
@@ -430,6 +447,13 @@ def run(case):
             def issue(idx):
                 prep = prepare(idx)
                 img = prep["img"]
+                all_targets = prep["targets"]
+                rest = []
+                if cfg.get("split_call") and len(all_targets) >= 2 and prep["ok"]:
+                    # the firmware is handed over with the first node only; the others are added by a second update call
+                    # that names type and version but brings no firmware (the documented use of the optional argument)
+                    prep["targets"], rest = all_targets[:1], all_targets[1:]
+                    probes["update_calls_without_firmware"] = probes.get("update_calls_without_firmware", 0) + 1
                 if prep["path"] is not None:
                     try:
                         world.call("update_fw", prep["targets"], img["type"], img["ver"], fw_path=prep["path"])
@@ -442,6 +466,12 @@ def run(case):
                     world.on_loop(lambda t=prep["targets"], i=img, d=prep["data"]: gateway.tasks.ota.make_update(t, i["type"], i["ver"], d))
                 else:
                     gateway.tasks.ota.make_update(prep["targets"], img["type"], img["ver"], prep["data"])
+                if rest:
+                    try:
+                        world.call("update_fw", rest, img["type"], img["ver"])
+                    except Exception as exc:  # pylint: disable=broad-except
+                        violations.append(_vio("update-raised", {"exc": repr(exc), "via": "second call without firmware"}, exc=type(exc).__name__))
+                    prep["targets"] = all_targets
                 record(prep)
 
             pair = []
